@@ -10,20 +10,29 @@ CORPUS = os.path.join(common.VERIF, "corpus", "C05")
 
 
 def run(ctx):
-    ctx.rule = ("cells = role under test x certificate the TLS layer reports (none / own / another Tub's / the verifier's) x "
-                "claimed my-tub-id (untouched / absent / each Tub's / empty / garbage / case-changed / truncated / extended / "
-                "long) x dialled id x id in the GET line x tub-id order, run on three real Tubs over the in-memory network; "
-                "non-trivial = distinct cell that is dishonest in at least one dimension and whose rewrite was applied "
-                "(or the honest control cells); plus malformed hello/decision blocks, forged reference URLs, gifts and "
-                "random multi-attempt histories on one Tub")
+    ctx.rule = ("cells = role under test x LEAF certificate the peer authenticates with (none / own / another Tub's / the verifier's) x "
+                "extra certificates it sends along (none / each other Tub's public certificate / two) x claimed my-tub-id (untouched / "
+                "absent / each Tub's / empty / garbage / case-changed / truncated / extended / long) x dialled id x id in the GET line x "
+                "tub-id order, run on three real Tubs over the in-memory network, once with in-flight bytes dropped at hang-up and once "
+                "with in-flight bytes delivered until connectionLost; non-trivial = distinct cell that is dishonest in at least one "
+                "dimension and whose rewrite was applied (or the honest control cells).  Scripts = a raw peer sending every sequence of "
+                "header-block kinds (three hello variants, good/bad decision, error, junk; RPC bytes) of length <= 2 (thorough: 3) in "
+                "every chunking to a real Tub as client and as server, never stopping after a rejection; non-trivial = at least two "
+                "blocks.  Plus malformed hello/decision blocks, forged reference URLs, gifts and random multi-attempt histories on "
+                "one Tub that interleave Tub peers with such raw peers")
     ctx.assumptions = [
-        "TLS is replaced by a no-op startTLS; crypto.peerFromTransport is replaced by the harness and returns the certificate "
-        "the cell prescribes: that a certificate reported by TLS was proven by the handshake is trusted, not checked",
+        "TLS itself is replaced: startTLS is a no-op and the transport's handle is a fake OpenSSL connection object "
+        "(get_peer_certificate / get_peer_cert_chain / get_verified_chain) describing what the peer presents: a leaf certificate plus "
+        "extra certificates.  The tree's OWN crypto.peerFromTransport (and twisted's Certificate.peerFromTransport) run on it.  Trusted, "
+        "not checked: the handshake proves possession of the LEAF certificate's key, and of nothing else the peer sends",
         "tubid_of (crypto.digest32 of the sha1 digest) is an uninterpreted function in the theorems; the oracle recomputes it "
         "independently (hashlib + base64) for the certificates used",
         "the model covers Tubs with a certificate (myTubID is never None) and listeners without redirects",
-        "exception classes raised by handlePLAINTEXTClient (BananaError on a non-101 answer), the error-block / timeout paths "
-        "(RemoteNegotiationError, ConnectionDone, NegotiationError) are hand-modelled and tied by the correspondence only",
+        "exception classes raised by handlePLAINTEXTClient (BananaError on a non-101 answer), by twisted for a missing peer certificate "
+        "(CertificateError) and on the error-block / timeout paths (RemoteNegotiationError, ConnectionDone, NegotiationError) are "
+        "hand-modelled and tied by the correspondence only",
+        "in the receive-loop model a block is one of: hello (parses, has a range), decision (acceptable or not), error block, junk; RPC "
+        "bytes between header blocks are exercised by the oracle only",
     ]
     ok, log = build(ctx, ["props/C05.vo"])
     from harness import c05_impl as impl
@@ -41,9 +50,11 @@ def run(ctx):
         urls = inbound_urls(ctx, impl)
         gifts(ctx, impl)
         hist = histories(ctx, impl)
+        scripts = keeps_sending(ctx, impl)
     if model_ok:
         correspond_urls(ctx, urls)
         correspond_histories(ctx, hist)
+        correspond_scripts(ctx, scripts)
     if not ok and len(ctx.failures) == before:
         ctx.fail("proof-broken", "the Coq development for C05 no longer builds against the regenerated gen/IdentityGen.v "
                  "(theorem closure props/C05.vo):\n" + log[-2500:], replay=dict(log=log[-6000:]), has_input=False)
@@ -103,9 +114,9 @@ def canon(cfg):
     return {k: cfg[k] for k in sorted(cfg) if cfg[k] is not None}
 
 
-def one_cell(ctx, impl, cfg, tag):
+def one_cell(ctx, impl, cfg, tag, keep_sending=False):
     try:
-        t = impl.run_cell(cfg)
+        t = impl.run_cell(cfg, keep_sending=keep_sending)
     except Exception as e:
         import traceback
         ctx.fail("oracle/exception-escaped", "an exception escaped to the transport/reactor in cell %r: %r" % (cfg, e),
@@ -113,7 +124,9 @@ def one_cell(ctx, impl, cfg, tag):
         return None
     impl.judge(ctx, tag, cfg, t)
     dishonest = not impl.honest_cell(cfg)
-    applied = bool(t.hits) or cfg.get("srv_cert", "B") != "B" or cfg.get("cli_cert", "A") != "A" or cfg.get("dial", "B") != "B"
+    applied = bool(t.hits) or cfg.get("srv_cert", "B") != "B" or cfg.get("cli_cert", "A") != "A" or cfg.get("dial", "B") != "B" \
+        or bool(cfg.get("srv_extra")) or bool(cfg.get("cli_extra"))
+    dishonest = dishonest or bool(cfg.get("srv_extra")) or bool(cfg.get("cli_extra"))
     ctx.case([tag, canon(cfg)], nontrivial=(dishonest and applied) or not dishonest)
     obs = t.observation()
     kind = "connected" if obs["A_final"] and obs["B_final"] else ("transient" if obs["A_ever"] or obs["B_ever"] else "refused")
@@ -142,6 +155,18 @@ def matrix(ctx, impl):
                 for claim in (None, "C"):
                     cfgs.append(dict(a_pos=a_pos, get=get, cli_cert=cert, cli_claim=claim))
         cfgs.append(dict(a_pos=a_pos, dial="C"))          # FURL names C, hint leads to B, nothing rewritten
+    # a peer that authenticates with one certificate and SENDS further ones along (other Tubs' public certificates)
+    EXTRAS = [["B"], ["C"], ["A"], ["C", "B"], ["B", "C"]]
+    for a_pos in ("hi", "lo"):
+        for dial in ("B", "C"):
+            for cert in CERTS:
+                for extra in EXTRAS:
+                    for claim in (None, "C", "A", "absent"):
+                        cfgs.append(dict(a_pos=a_pos, dial=dial, get="B", srv_cert=cert, srv_extra=extra, srv_claim=claim))
+        for cert in CERTS:
+            for extra in EXTRAS:
+                for claim in (None, "B", "C", "absent"):
+                    cfgs.append(dict(a_pos=a_pos, cli_cert=cert, cli_extra=extra, cli_claim=claim))
     # tub-id orders in which both ends (or neither) would decide
     for a_pos in ("hi2", "lo2"):
         for extra in (dict(), dict(cli_cert="C", cli_claim="C"), dict(cli_cert="B", cli_claim="B"),
@@ -153,11 +178,17 @@ def matrix(ctx, impl):
         r = ctx.rng
         cfgs.append(dict(a_pos=r.choice(["hi", "lo", "hi2", "lo2"]), dial=r.choice(["B", "B", "C"]),
                          get=r.choice([None, "B", "B", "B", "C", "empty", "upper"]),
-                         srv_cert=r.choice(CERTS), srv_claim=r.choice(CLAIMS), cli_cert=r.choice(CERTS), cli_claim=r.choice(CLAIMS)))
+                         srv_cert=r.choice(CERTS), srv_claim=r.choice(CLAIMS), cli_cert=r.choice(CERTS), cli_claim=r.choice(CLAIMS),
+                         srv_extra=r.choice([None, None] + EXTRAS), cli_extra=r.choice([None, None] + EXTRAS)))
     for cfg in cfgs:
         c = one_cell(ctx, impl, cfg, "cell")
         if c:
             out.append(c)
+    # the same cells once more with the transport semantics of a real socket: what the peer Tub has already sent (its
+    # decision, its first RPC bytes) still reaches an end that has rejected the hello and hung up, until connectionLost.
+    # Oracle only (the failure classes of this schedule are not part of the session model).
+    for cfg in cfgs:
+        one_cell(ctx, impl, cfg, "cell-in-flight-delivered", keep_sending=True)
     for c in (out[0], out[5], out[200] if len(out) > 200 else out[-1]):
         ctx.sample(dict(kind="cell", cell=c["cfg"], observed=c["obs"]))
     return out
@@ -187,9 +218,16 @@ def zs(s):
     return "[" + ";".join(str(ord(ch)) for ch in s) + "]%Z"
 
 
+CERTN = dict(none="None", A="(Some 1%Z)", B="(Some 2%Z)", C="(Some 3%Z)")
+CERTI = dict(A="1%Z", B="2%Z", C="3%Z")
+
+
+def pres(leaf, extra):
+    return "(Build_presented Z %s %s)" % (CERTN[leaf], coq_list(CERTI[x] for x in (extra or [])))
+
+
 def session_term(impl, c):
     cfg, ids = c["cfg"], c["ids"]
-    certn = dict(none="None", A="(Some 1%Z)", B="(Some 2%Z)", C="(Some 3%Z)")
     dial = ids[cfg.get("dial", "B")]
     req = dial if cfg.get("get") is None else impl.get_value(cfg["get"], ids)
     def claim(kind, untouched, right):
@@ -200,7 +238,8 @@ def session_term(impl, c):
     claim_s = claim(cfg.get("cli_claim"), ids["A"], ids["A"])
     return ("(%s, Build_session_cfg Z %s %s %s %s %s %s %s %s)" % (
         "ord_%s" % cfg["a_pos"], "idA_" + cfg["a_pos"], zs(dial), zs(req), "idB_" + cfg["a_pos"],
-        certn[cfg.get("srv_cert", "B")], cstr(claim_c), certn[cfg.get("cli_cert", "A")], cstr(claim_s)))
+        pres(cfg.get("srv_cert", "B"), cfg.get("srv_extra")), cstr(claim_c),
+        pres(cfg.get("cli_cert", "A"), cfg.get("cli_extra")), cstr(claim_s)))
 
 
 def correspond_sessions(ctx, cells):
@@ -390,7 +429,7 @@ def gifts(ctx, impl):
 
 # ---------------------------------------------------------------------------------------------- histories on one Tub
 def histories(ctx, impl):
-    n = ctx.n(40, 1500)
+    n = ctx.n(150, 3000)
     out = []
     for i in range(n):
         length = ctx.rng.randint(2, 7)
@@ -401,7 +440,7 @@ def histories(ctx, impl):
             ctx.fail("oracle/history/exception", "exception escaped while running a history on Tub A: %r" % (e,),
                      replay=dict(tb=traceback.format_exc()))
             continue
-        ctx.case(["history", h["ops"]], nontrivial=any(o[0] != "detach" for o in h["ops"]) and len(h["ops"]) >= 2)
+        ctx.case(["history", h["a_pos"], h["ops"]], nontrivial=any(o[0] != "detach" for o in h["ops"]) and len(h["ops"]) >= 2)
         ctx.hist("history_length", len(h["ops"]))
         for o in h["ops"]:
             ctx.hist("history_op", o[0])
@@ -437,11 +476,11 @@ Fixpoint trace (tid : Z -> list Z) (t : table Z) (evs : list (event Z)) : list (
 """
     def ev(o, a_pos):
         if o[0] == "detach":
-            return "(Detached Z id%s_%s)" % (o[1], a_pos)
+            return "(Detached Z [])" if o[1] == "R" else "(Detached Z id%s_%s)" % (o[1], a_pos)
         if o[0] == "loopback":
             return "(LoopbackRequested Z)"
-        role, target, cert, claim, arrives, dropped = o[1:]
-        return "(Negotiated Z %s %s %s %s %s %s)" % (role, ("id%s_%s" % (target, a_pos)) if target else "[]", certn[cert], cstr(claim),
+        role, target, cert, claim, arrives, dropped = o[1:7]
+        return "(Negotiated Z %s %s %s %s %s %s)" % (role, ("id%s_%s" % (target, a_pos)) if target else "[]", pres(cert, o[7] if len(o) > 7 else None), cstr(claim),
                                                      "true" if arrives else "false", "true" if dropped else "false")
     nbad = 0
     for shard in range(0, len(hist), 300):
@@ -466,3 +505,147 @@ Fixpoint trace (tid : Z -> list Z) (t : table Z) (evs : list (event Z)) : list (
                              % (h["ops"], want, got), replay=dict(history=h, model=got, impl=want), has_input=False)
     ctx.extra["correspondence_history_traces"] = len(hist)
     ctx.extra["correspondence_history_disagreements"] = nbad
+
+
+# ---------------------------------------------------------------------------------------------- a peer that keeps sending
+def compositions(n):
+    """all ways to cut n blocks into chunks: sets of positions after which a chunk ends"""
+    out = []
+    for mask in range(1 << max(0, n - 1)):
+        out.append({i for i in range(n - 1) if mask >> i & 1})
+    return out
+
+
+def keeps_sending(ctx, impl):
+    """a scripted raw peer sends every kind of header block in every order and chunking -- in particular after a block was
+    rejected and before the connection is gone -- to a real Tub acting as client or as server; the oracle is judged on every
+    Tub.brokerAttached"""
+    kinds = impl.BLOCK_KINDS
+    pres = [("C", "B", ["B"]), ("C", "B", []), ("B", "B", [])]
+    jobs = []
+    for role in ("Client", "Server"):
+        for a_pos in ("hi", "lo"):
+            for (leaf, x, extras) in pres:
+                for n in (1, 2):
+                    for blocks in itertools.product(kinds, repeat=n):
+                        for cuts in compositions(n):
+                            jobs.append((role, a_pos, leaf, x, extras, list(blocks), cuts))
+    triples = list(itertools.product(kinds, repeat=3))
+    if ctx.tier == "thorough":
+        for role in ("Client", "Server"):
+            for a_pos in ("hi", "lo"):
+                for (leaf, x, extras) in pres:
+                    for blocks in triples:
+                        for cuts in compositions(3):
+                            jobs.append((role, a_pos, leaf, x, extras, list(blocks), cuts))
+    r = ctx.rng
+    for i in range(ctx.n(700, 6000)):
+        n = 3 if ctx.tier != "thorough" else r.choice([4, 5, 6])
+        blocks = [r.choice(kinds) for _ in range(n)]
+        leaf, x, extras = r.choice(pres + [("C", "B", ["B", "A"]), ("B", "C", ["C"])])
+        jobs.append((r.choice(["Client", "Server"]), r.choice(["hi", "lo"]), leaf, x, extras, blocks,
+                     {j for j in range(n - 1) if r.random() < 0.5}))
+    # RPC-protocol bytes between the blocks (oracle only: they are not header blocks)
+    for i in range(ctx.n(150, 1500)):
+        n = r.choice([2, 3, 4])
+        blocks = [r.choice(kinds + ["B"]) for _ in range(n)]
+        if "B" not in blocks:
+            blocks[r.randrange(1, n)] = "B"
+        jobs.append((r.choice(["Client", "Server"]), r.choice(["hi", "lo"]), "C", "B", r.choice([[], ["B"]]), blocks,
+                     {j for j in range(n - 1) if r.random() < 0.6}))
+    cj = []
+    if os.path.isdir(CORPUS):
+        for fn in sorted(os.listdir(CORPUS)):
+            if fn.endswith(".json"):
+                for sc in json.load(open(os.path.join(CORPUS, fn))).get("scripts", []):
+                    cj.append((sc[0], sc[1], sc[2], sc[3], sc[4], sc[5], set(sc[6])))
+    jobs = cj + jobs
+    out = []
+    for job in jobs:
+        try:
+            t = impl.raw_trial(*job)
+        except Exception as e:
+            import traceback
+            ctx.fail("oracle/keeps-sending/exception", "an exception escaped while a raw peer sent %r (cuts %r) to Tub A as %s: %r"
+                     % (job[5], sorted(job[6]), job[0], e), replay=dict(job=repr(job), tb=traceback.format_exc()))
+            continue
+        ctx.case(["script", job[0], job[1], job[2], job[3], job[4], job[5], sorted(job[6])], nontrivial=len(job[5]) >= 2)
+        ctx.hist("script_len", len(job[5]))
+        ctx.hist("script_attached", len(t["attached"]))
+        for ph in t["obs"]:
+            ctx.hist("script_phase_after_chunk", ph[0])
+        for p in t["problems"][:2]:
+            ctx.fail("oracle/keeps-sending/%s" % p[0], "%s; the raw peer authenticated as Tub %s (extra certificates sent along: %s) and sent the "
+                     "blocks %r in chunks cut after %r to Tub A acting as %s (%s)" % (p[1], t["leaf"], t["extras"], t["blocks"], t["cuts"],
+                                                                                   t["role"], "dialling Tub %s" % t["x"] if t["role"] == "Client" else "listener"),
+                     replay=dict(script=t))
+        out.append(t)
+    if out:
+        ctx.sample(dict(kind="keeps-sending", role=out[40]["role"], blocks=out[40]["blocks"], cuts=out[40]["cuts"], observed=out[40]["obs"]))
+    return out
+
+
+def correspond_scripts(ctx, scripts):
+    from harness import c05_impl as impl
+    rows = [t for t in scripts if "B" not in t["blocks"]]
+    if not rows:
+        return
+    defs = []
+    allids = {}
+    for a_pos in ("hi", "lo"):
+        arr = impl.arrangement(a_pos)
+        allids[a_pos] = {k: v[0] for k, v in arr.items()}
+        for k in "ABC":
+            defs.append("Definition id%s_%s : list Z := %s." % (k, a_pos, zs(arr[k][0])))
+        defs.append("Definition tid_%s : Z -> list Z := fun c => if (c =? 1)%%Z then idA_%s else if (c =? 2)%%Z then idB_%s "
+                    "else if (c =? 3)%%Z then idC_%s else []." % (a_pos, a_pos, a_pos, a_pos))
+    defs = "\n".join(defs) + """
+Definition code (tid : Z -> list Z) (k : list Z) : Z :=
+  if list_eqb k (tid 1%Z) then 1%Z else if list_eqb k (tid 2%Z) then 2%Z else if list_eqb k (tid 3%Z) then 3%Z else 0%Z.
+Definition pcode (p : phase) : Z := match p with PhEncrypted => 1%Z | PhDeciding => 2%Z | PhBanana => 3%Z | PhAbandoned => 4%Z end.
+Fixpoint trace (tid : Z -> list Z) (r : role) (tgt : list Z) (p : presented Z) (st : nstate) (chunks : list (list blk)) :=
+  match chunks with
+  | [] => []
+  | c :: cs => let st' := recv_chunk Z tid r (tid 1%Z) tgt p st c in
+               (pcode (n_phase st'), match n_their st' with Some t => code tid t | None => (-1)%Z end, map (code tid) (n_attached st'))
+               :: trace tid r tgt p st' cs
+  end.
+"""
+    def blk(k, t):
+        return {"Hleaf": "BHello (Some id%s_%s)" % (t["leaf"], t["a_pos"]), "Hx": "BHello (Some id%s_%s)" % (t["x"], t["a_pos"]),
+                "Habsent": "BHello None", "D": "BDecision true", "Dbad": "BDecision false", "E": "BError", "J": "BJunk"}[k]
+
+    def term(t):
+        chunks, cur = [], []
+        for i, k in enumerate(t["blocks"]):
+            cur.append(blk(k, t))
+            if i in t["cuts"] or i == len(t["blocks"]) - 1:
+                chunks.append(coq_list(cur))
+                cur = []
+        tgt = "id%s_%s" % (t["x"], t["a_pos"]) if t["role"] == "Client" else "[]"
+        return "trace tid_%s %s %s %s n_init %s" % (t["a_pos"], t["role"], tgt, pres(t["leaf"], t["extras"]), coq_list(chunks))
+    pnum = dict(PhEncrypted=1, PhDeciding=2, PhBanana=3, PhAbandoned=4)
+    nbad = 0
+    for shard in range(0, len(rows), 500):
+        part = rows[shard:shard + 500]
+        body = defs + "Eval vm_compute in [" + ";\n ".join(term(t) for t in part) + "].\n"
+        try:
+            (vals,) = ctx.coq_eval("C05_scripts_%d" % (shard // 500), body, requires=REQ)
+        except common.CoqEvalError as e:
+            ctx.fail("correspondence-broken", "the C05 receive-loop model could not be evaluated: " + str(e)[-1500:], has_input=False)
+            return
+        for t, tr in zip(part, vals):
+            ids = allids[t["a_pos"]]
+            rev = {ids["A"]: 1, ids["B"]: 2, ids["C"]: 3}
+            ctx.traces += 1
+            want = [(pnum.get(ph, 0), -1 if th is None else rev.get(th, 0), [rev.get(k, 0) for k in reversed(att)]) for (ph, th, att) in t["obs"]]
+            got = [(a, b, list(c)) for (a, b, c) in tr]
+            if want != got:
+                nbad += 1
+                if nbad <= 3:
+                    ctx.fail("correspondence/keeps-sending", "the receive loop of Negotiation and its model differ (phase, theirTubRef, attached keys "
+                             "after every chunk) for blocks %r cut after %r, victim %s, order %s, peer leaf %s extras %s: implementation %r, model %r"
+                             % (t["blocks"], t["cuts"], t["role"], t["a_pos"], t["leaf"], t["extras"], want, got),
+                             replay=dict(script=t, model=got, impl=want), has_input=False)
+    ctx.extra["correspondence_script_traces"] = len(rows)
+    ctx.extra["correspondence_script_disagreements"] = nbad
